@@ -454,3 +454,11 @@ extern const char cif_errlist[][80];
 extern const int cif_nerr;
 const char *vp_errlist_entry(int i) { return cif_errlist[i]; }
 int vp_nerr(void) { return cif_nerr; }
+
+/* reach measurement only (tools/coverage.py, the 'cov' build): workers leave with _exit, so flush the counters */
+#ifdef VP_COVERAGE
+extern void __gcov_dump(void);
+void vp_cov_dump(void) { __gcov_dump(); }
+#else
+void vp_cov_dump(void) { }
+#endif
